@@ -48,9 +48,16 @@ def gen_scenario(seed, length=30, sessions=("A", "B"), mboxes=("inbox", "b"),
     extra = ["c", "b/x", "d e"]
     names = list(w)
     ws = [w[n] for n in names]
+    # commands come in bursts by one session while the others stay quiet (that is
+    # when pend queues build up); the burst length is random
+    burst_left, burst_s = 0, sessions[0]
     for _ in range(length):
         op = rng.choices(names, ws)[0]
-        s = rng.choice(sessions)
+        if burst_left <= 0:
+            burst_s = rng.choice(sessions)
+            burst_left = rng.choice([1, 1, 2, 3, 5, 8])
+        burst_left -= 1
+        s = burst_s
         mb = rng.choice(mboxes)
         uid = rng.random() < 0.4
         if op in ("select", "examine", "status"):
